@@ -510,7 +510,10 @@ XIncludeUtils::doXIncludeXMLFileDOM(const XMLCh *href,
         /* baseURI fixups - see http://www.w3.org/TR/xinclude/#base for details. */
         DOMElement *topLevelElement = includedNode->getDocumentElement();
         if (topLevelElement && topLevelElement->getNodeType() == DOMNode::ELEMENT_NODE ){
-            XMLUri parentURI(includeNode->getBaseURI());
+            /* the included element will live where the xinclude element is: what counts is the
+               base URI in force at its parent, not the one the xinclude element's own xml:base gives */
+            DOMNode *parentOfInclude = includeNode->getParentNode();
+            XMLUri parentURI(parentOfInclude ? parentOfInclude->getBaseURI() : parsedDocument->getBaseURI());
             XMLUri includedURI(includedNode->getBaseURI());
 
             /* if the paths differ we need to add a base attribute */
